@@ -158,8 +158,49 @@ def _loop_collects_into(loop: ast.For) -> str | None:
     return target
 
 
-def _body_insensitive(body: list[ast.stmt]) -> bool:
-    """Loop body whose effects commute: set.add / membership / logging / counters."""
+ORDERED_MUTATORS = {"append", "extend", "insert", "write", "writelines", "setdefault", "pop", "popitem", "remove", "sort", "reverse", "send", "put"}
+
+
+def _effect_free(ctx, fn: FuncInfo, call: ast.Call, depth: int = 2) -> bool:
+    """The call reaches only repository functions that neither mutate a sequence / mapping nor store attributes (their result may depend on
+    the argument, not on how often or in which order they are called)."""
+    try:
+        ts = ctx.resolver(fn).resolve_call(call)
+    except Exception:
+        return False
+    if not ts:
+        return False
+    for t in ts:
+        if not isinstance(t, FuncInfo):
+            # external: constructors / converters of well-known libraries
+            if str(t).split(".")[0] in ("packaging", "pathlib", "builtins", "re", "str", "int") or str(t) in ("str", "int", "float", "bool", "len", "repr", "Path"):
+                continue
+            return False
+        for n in walk_no_nested(t.node):
+            if isinstance(n, (ast.Global, ast.Nonlocal, ast.Yield, ast.YieldFrom)):
+                return False
+            if isinstance(n, (ast.Assign, ast.AugAssign)) and any(isinstance(x, (ast.Attribute, ast.Subscript)) for tg in (n.targets if isinstance(n, ast.Assign) else [n.target]) for x in [tg]):
+                return False
+            if isinstance(n, ast.Call):
+                la = last_attr(n.func) or ""
+                if la in ORDERED_MUTATORS or la in ("add", "update", "discard"):
+                    return False
+                if depth and isinstance(n.func, (ast.Name, ast.Attribute)):
+                    q = ctx.resolver(t).callee_qname(n) or ""
+                    if q in ctx.prog.functions and not _effect_free(ctx, t, n, depth - 1):
+                        return False
+    return True
+
+
+def _body_insensitive(body: list[ast.stmt], ctx=None, fn: FuncInfo | None = None, loop: ast.AST | None = None) -> bool:
+    """Loop body whose effects commute: set.add / membership / logging / counters; temporaries that live inside one iteration; calls to
+    effect-free functions of the repository."""
+    local_tmp: set[str] = set()
+    if fn is not None and loop is not None:
+        assigned = {t.id for st in body for a in ast.walk(st) if isinstance(a, ast.Assign) for t in a.targets if isinstance(t, ast.Name)}
+        end = getattr(loop, "end_lineno", loop.lineno)
+        read_after = {x.id for x in walk_no_nested(fn.node) if isinstance(x, ast.Name) and isinstance(x.ctx, ast.Load) and x.lineno > end}
+        local_tmp = assigned - read_after
     for st in body:
         for n in ast.walk(st):
             if isinstance(n, ast.Call):
@@ -169,10 +210,14 @@ def _body_insensitive(body: list[ast.stmt]) -> bool:
                     continue
                 if d in ("isinstance", "len", "str", "any", "all"):
                     continue
+                if ctx is not None and fn is not None and _effect_free(ctx, fn, n):
+                    continue
                 return False
             if isinstance(n, (ast.Return, ast.Yield, ast.Break, ast.Assign, ast.AugAssign)):
                 if isinstance(n, ast.AugAssign) and isinstance(n.op, (ast.Add, ast.BitOr)) and isinstance(n.value, ast.Constant):
                     continue
+                if isinstance(n, ast.Assign) and all(isinstance(t, ast.Name) and t.id in local_tmp for t in n.targets):
+                    continue  # a temporary of this iteration
                 return False
     return True
 
@@ -183,7 +228,7 @@ def unordered_iterations(ctx, fn: FuncInfo):
     for n in walk_no_nested(fn.node):
         if isinstance(n, (ast.For, ast.AsyncFor)):
             src = unordered_source(ctx, fn, n.iter)
-            if src is not None and not _body_insensitive(n.body):
+            if src is not None and not _body_insensitive(n.body, ctx, fn, n):
                 coll = _loop_collects_into(n)
                 if coll is not None and _sorted_before_all_uses(fn, coll, n):
                     continue  # filtered into a list that is sorted before anyone looks at it
